@@ -104,6 +104,88 @@ CHECKS = {
         note=COMMON_NOTE + "Call sites in cfer, mpls, meek, meek-prf, qpq and 'elected never exceed seats': bounded monitor only.",
         technique='contract-based deductive verification (status-writer contracts, call-site preconditions in count()), AST '
                   'single-writer scans; bounded transition monitor as stand-in'),
+    'C03': dict(
+        category='proof',
+        text="Clauses the modules reproduce as ## statute text are proved where they are per-function: forced arithmetic/precision of "
+             "each statutory rule (options() contracts), quota formulas and election comparators (closure contracts), and the shape "
+             "of each transfer-value expression (order of operations, rounding placement: SCAN on the AST). 'The whole history "
+             "equals an independent execution of the statute' is not decided; wigm[fixed,p4] == wigm-prf is a bounded cross-check.",
+        design_ref='DESIGN 6/C03, 11.12',
+        note=COMMON_NOTE + "Not decided: stage-by-stage conformance of complete histories (needs a second implementation = a model). "
+             "Known deviation recorded in DESIGN 8 (F12: cfer/mpls transfer value truncation order versus the quoted clause).",
+        technique='contract-based deductive verification of per-clause contracts + AST scans of clause-annotated statements; '
+                  'bounded cross-check wigm(fixed,4) vs wigm-prf'),
+    'C08': dict(
+        category='proof',
+        text="The keep/weight step of meek and warren (kw_meekOpenSTV, kw_warren) is proved for all operands: no negative keep value "
+             "or weight, a ballot never hands out more than it holds (Warren: exactly); iterate()'s exit statuses and 'exclusion "
+             "only after the end of an iteration' are SCAN obligations on the AST. votes+residual == ballots at every snapshot, keep "
+             "factors by status and convergence exit are checked by the bounded monitor.",
+        design_ref='DESIGN 6/C08, 11.13',
+        note=COMMON_NOTE + "distributeVotes / iterateStep composition (M1) and kf <= 1 for elected candidates: bounded monitor only.",
+        technique='contract-based deductive verification of the keep/weight closures; AST scans; bounded snapshot monitor'),
+    'C10': dict(
+        category='proof',
+        text="Ballot.vote == weight x multiplier exactly (contract, all arithmetics) so splitting a multiplier cannot change a value; "
+             "inside every sweep over the ballots non-ballot state is updated only by += on exact sums (SCAN: 43 loops), no rule reads "
+             "a ballot's position or line number, a new weight never depends on the multiplier. Text layout / comments / nicknames: "
+             "bounded re-presentation monitor.",
+        design_ref='DESIGN 6/C10, 11.14',
+        note=COMMON_NOTE + "Commutation of the sweeps is argued from the additive-update scan (not a relational SMT proof); tokenizer "
+             "invariance is bounded only. Known finding: guarded maxDiff/minDiff statistic lines of the report vary with splits.",
+        technique='contract-based deductive verification of Ballot.vote + AST scans of ballot sweeps; bounded presentation variants'),
+    'C11': dict(
+        category='exploration',
+        text="Bounded: every permutation of candidate ids (n<=3; 3 random ones above) with names, tie order and ballots carried along "
+             "must give the same winners by name and final tallies; withdrawn must equal deleted (record compared modulo the "
+             "withdrawn candidate's descriptor lines) over the exhaustive tiny + seeded random profile domain x 11 rules. A few "
+             "enabling facts are discharged as SCAN obligations (ids only compared for equality, withdrawn never hopeful, withdrawn "
+             "stripped at parse).",
+        design_ref='DESIGN 6/C11, 11.15',
+        note="Bounded stand-in (labelled); the relational statement itself is not proved. Domain bounds are in the evidence rule text.",
+        technique='bounded exhaustive/seeded run-time comparison on the real code (stand-in); AST scans for the enabling facts'),
+    'C15': dict(
+        category='exploration',
+        text="Bounded: election structures (<=5 candidates, equal rankings, withdrawn/undeclared, tie orders, nicknames, awkward names, "
+             "source/comment) rendered in 4 layouts x numbers/nicknames x multipliers/ballot ids are parsed back and compared with "
+             "the structure, plus the post-parse invariants. Proved: getCid returns an id in 1..nCand or raises the profile error "
+             "(contract, all token kinds); array typecode / withdrawn range (SCAN).",
+        design_ref='DESIGN 6/C15, 11.16',
+        note="Sentence 1 (faithful recovery over all renderings) is bounded only. The parser's token loop is outside the verified subset.",
+        technique='bounded structure -> render -> parse round trip on the real parser; contract proof of getCid'),
+    'C16': dict(
+        category='proof',
+        text="Definite assignment of every local on all CFG paths including exception edges for every function of profile.py, "
+             "election.py, options.py, candidate(s).py (DEF obligations: this is what found the UnboundLocalError); every raise site "
+             "raises ElectionProfileError, bltParse converts StopIteration and ValueError, int() only after a digits test (SCAN); "
+             "getCid exception contract. Token soups / truncations / mutations are the bounded fuzz stand-in.",
+        design_ref='DESIGN 6/C16, 11.17',
+        note=COMMON_NOTE + "Exception freedom of the whole token loop (subscripts, formats, next()) is not discharged by SMT: it rests "
+             "on the scans above plus the bounded fuzz (labelled). MemoryError / RecursionError not modelled.",
+        technique='deductive definite-assignment analysis over the CFG with exception edges + AST scans + contract proof of getCid; '
+                  'bounded fuzz as stand-in'),
+    'C18': dict(
+        category='proof',
+        text="Candidate.elect/defeat/unpend change the status and log an action naming that candidate in the same call "
+             "(postconditions with the ghost log); key-safety of the renderers (every key read from an action/candidate state is "
+             "written), 'end' is the last action, every rule begins with begin/count, one dump row per action (SCAN). Agreement of "
+             "report, dump and JSON with the record on every status/tally/quota: bounded monitor parsing the three renderings back.",
+        design_ref='DESIGN 6/C18, 11.18',
+        note=COMMON_NOTE + "ElectionRecord.action/report/dump/json are trusted contracts (nested dict/list text building outside the "
+             "subset); cross-agreement is bounded only.",
+        technique='contract-based deductive verification of the status writers (change-and-log), AST scans of record.py; bounded '
+                  'rendering cross-check'),
+    'C19': dict(
+        category='proof',
+        text="Election.report/dump/json log the interruption marker exactly once whichever are called (contracts on the three "
+             "methods); record['actions'] is only appended to and an action is appended only when complete, the header is filled "
+             "on demand before any header key is read, no clock/random/IO in the package (SCAN). Every interruption point is then "
+             "exercised by the bounded settrace monitor (KeyboardInterrupt at the k-th line event).",
+        design_ref='DESIGN 6/C19, 11.19',
+        note=COMMON_NOTE + "'Renderable at every write boundary' is argued from the append-only/complete-before-append scans plus the "
+             "bounded interruption monitor; not an SMT invariant over the record dictionaries.",
+        technique='contract-based deductive verification of the marker protocol + AST scans of the record; bounded interruption '
+                  'at every line event as stand-in'),
     'C17': dict(
         category='proof',
         text="Option precedence as postconditions of Options.getopt/setopt/normalize (force > caller > file > default, for every "
